@@ -41,9 +41,10 @@ type c19Cfg struct {
 }
 
 type c19Op struct {
-	Op   string `json:"op"`
-	Kind string `json:"kind"`
-	C    c19Cfg `json:"c"`
+	Op    string `json:"op"`
+	Kind  string `json:"kind"`
+	C     c19Cfg `json:"c"`
+	Kaobs int    `json:"kaobs"` // what a dialled connection must show: -1 probes off, else idle seconds
 }
 
 type c19History struct {
@@ -279,7 +280,7 @@ func TestVerifC19Fields(t *testing.T) {
 					{"MaxIdleConnsPerHost", tr.MaxIdleConnsPerHost, want.MaxIdle, 0},
 				}
 				if ka != -2 {
-					fs = append(fs, fld{"keep-alive(s)", ka, want.Ka / 1000, 15})
+					fs = append(fs, fld{"keep-alive(s; -1=off)", ka, op.Kaobs, 15})
 				} else if kerr != nil {
 					verifx.Fail(h, map[string]any{"sub": "fields", "kind": op.Kind, "clause": "dial"}, "history %s: step %d: the transport cannot dial a listening local address: %v", c19HistString(h), i+1, kerr)
 				}
@@ -322,7 +323,7 @@ func TestVerifC19Fields(t *testing.T) {
 					verifx.Fail(h, feat, "history %s: the %s transport built at step %d carries %v; configured last: %+v", c19HistString(h), op.Kind, i+1, wrong, want)
 				}
 				key := op.Kind + "/" + want.Name + "/" + fmt.Sprint(sets > 1)
-				if !dialSeen[key] {
+				if !dialSeen[key] && want.Dial > 0 { // proxy.dialtimeout 0 = none: nothing to time
 					dialSeen[key] = true
 					dialJobs = append(dialJobs, c19DialJob{tr: tr, want: want, kind: op.Kind, h: h})
 				}
